@@ -16,5 +16,6 @@ head = subprocess.run(["git", "-C", str(repo.root), "rev-parse", "HEAD"], captur
 dirty = subprocess.run(["git", "-C", str(repo.root), "status", "--short", "--", "permuta"], capture_output=True, text=True).stdout.strip()
 assert not dirty, "the working tree of the repository is not clean"
 REF_FILE.parent.mkdir(exist_ok=True)
-REF_FILE.write_text(json.dumps({"commit": head, "functions": out}))
+consts = {m.name: sorted(m.assigns) for m in repo.modules.values()}
+REF_FILE.write_text(json.dumps({"commit": head, "functions": out, "module_names": consts}))
 print(len(out), "functions", head)
